@@ -280,3 +280,28 @@ func (t *Topology) NextHops(d map[string]map[string]float64, n, dst string) []st
 	sort.Strings(out)
 	return out
 }
+
+// ConnectForeign links an instance that is not managed by the mesh (e.g. a second node using an ID
+// that already exists) to mesh node peer. label names the foreign end in the tap log.
+func (m *Mesh) ConnectForeign(inst *netceptor.Netceptor, label, peer string, cost float64) *memnet.Link {
+	m.mu.Lock()
+	m.nlink++
+	id := fmt.Sprintf("L%d:%s-%s", m.nlink, label, peer)
+	seed := m.Seed*1000003 + int64(m.nlink)
+	m.mu.Unlock()
+	l := m.Net.NewLink(id, label, peer, cost, seed)
+	ba := memnet.NewBackend()
+	if err := inst.AddBackend(ba, netceptor.BackendConnectionCost(cost)); err != nil {
+		panic(err)
+	}
+	bb := memnet.NewBackend()
+	if err := m.Node(peer).Inst().AddBackend(bb, netceptor.BackendConnectionCost(cost)); err != nil {
+		panic(err)
+	}
+	l.SetBackends(ba, bb)
+	l.Up()
+	return l
+}
+
+// NewInst creates an unmanaged instance with the mesh's constants.
+func (m *Mesh) NewInst(id string) *netceptor.Netceptor { return m.newInst(id) }
